@@ -223,7 +223,11 @@ func TestSequential(t *testing.T) {
 			}
 			res := rapid.SampledFrom([]string{"a", "a", "b"}).Draw(t, "res")
 			b := uint32(rapid.SampledFrom([]int{1, 1, 1, 2, 3, 5, 30}).Draw(t, "batch"))
-			e, blk := sentinel.Entry(res, sentinel.WithBatchCount(b))
+			var bo []sentinel.EntryOption // a single token is asked for either explicitly or by leaving the option out
+			if !(b == 1 && rapid.Bool().Draw(t, "plainCall")) {
+				bo = append(bo, sentinel.WithBatchCount(b))
+			}
+			e, blk := sentinel.Entry(res, bo...)
 			now = hx.C.Ms() // (later than the arrival when the pacing rule made the request wait)
 			expBlock, expVal := -1, 0.0
 			if res == "a" {
